@@ -42,7 +42,13 @@ extern "C" void h_hist() {
             else { vp_assert(o != nullptr, "read() delivers the next object"); if (o) delivered++; }
             delete o;                      // objects returned by read() belong to the caller
             break; }
-        case WRITE: { CanMessage * m = new CanMessage; m->id = vp_u32("wid"); f->write(m); written++; break; }   // now owned by the library
+        case WRITE: {                      // the object is owned by the library from here on
+            uint32_t kind = (uint32_t)vp_concrete(vp_choose(3, "kind"));
+            ObjectHeaderBase * o;
+            if (kind == 0) { CanMessage * m = new CanMessage; m->id = vp_u32("wid"); o = m; }
+            else if (kind == 1) { RestorePointContainer * r = new RestorePointContainer; r->data.resize(3); vp_bytes(r->data.data(), 3, "rp"); o = r; }
+            else { AppText * t = new AppText; t->text.resize(70); vp_bytes(&t->text[0], 70, "txt"); o = t; }   // spans a container
+            f->write(o); written++; break; }
         case CLOSE: f->close(); state = CLOSED; break;
         case DESTROY: delete f; f = nullptr; state = CLOSED; break;
         }
